@@ -491,6 +491,51 @@ def cheb_cases(cx, mono, N, x0, x1, rng, ref_mats):
     if not err <= 2.0 ** -40 * N:
         cx.oracle(False, ('transform', N, iv), 'transform(itransform(c)) != c (N=%d, error %.3e)' % (N, err),
                   {'N': N, 'interval': iv, 'coefficients': cf.tolist(), 'back': back.tolist()}, 'transform')
+    # the 1-D helper applied along several axes at once (axes=None: all axes of the array): transform and itransform must
+    # be the composition of the single-axis ones and mutually inverse (fix 0cd7390: itransform kept only the last
+    # axis' normalisation), and the ultraspherical integration constant must act along the named axis of an N-D
+    # array (fix 67be555: it raised for every multi-dimensional input)
+    if N <= 9:
+        import random as _random
+        rng2 = _random.Random('C17-multiaxis:%d:%d:%r' % (ck.seed, N, iv))   # own stream: the main stream is left as it was
+        for ndim in (2, 3):
+            shp = (N,) * ndim
+            C = np.array([float(F(rng2.randint(-64, 64), 8)) for _ in range(N ** ndim)]).reshape(shp)
+            sC = float(np.sum(np.abs(C))) or 1.0
+            ck.evaluations += 1
+            try:
+                U_all = np.asarray(h.itransform(C.copy()), dtype=float)
+                U_seq = C.copy()
+                for ax in range(ndim):
+                    U_seq = np.asarray(h.itransform(U_seq, axes=(ax,)), dtype=float)
+                B_all = np.asarray(h.transform(U_all.copy()), dtype=float)
+                e_seq = float(np.max(np.abs(U_all - U_seq))) / sC
+                e_rt = float(np.max(np.abs(B_all - C))) / sC
+            except Exception as ex:
+                e_seq = e_rt = float('inf')
+                U_all = B_all = np.zeros(0)
+            cx.slack('transform-multiaxis', max(e_seq, e_rt))
+            if not max(e_seq, e_rt) <= 2.0 ** -40 * N * ndim:
+                cx.oracle(False, ('transform-multiaxis', N, iv), 'ChebychevHelper(%d) on a %d-D array over all axes: itransform is not the composition of the '
+                          'single-axis inverse transforms / transform(itransform(c)) != c (errors %.3e, %.3e)' % (N, ndim, e_seq, e_rt),
+                          {'N': N, 'ndim': ndim, 'interval': iv, 'coefficients': C.tolist(), 'itransform': U_all.tolist(), 'back': B_all.tolist()}, 'transform')
+            ck.case(key=('transform-multiaxis', N, ndim, iv), nontrivial=N >= 2)
+        if N >= 2:
+            for shp, ax in (((3, N), -1), ((N, 3), 0), ((2, N, 2), 1)):
+                Y = np.array([float(F(rng2.randint(-64, 64), 8)) for _ in range(int(np.prod(shp)))]).reshape(shp)
+                ck.evaluations += 1
+                Ym = np.moveaxis(Y, ax, -1)
+                want = np.array([float(u.get_integration_constant(row.copy(), axis=-1)) for row in Ym.reshape(-1, N)]).reshape(Ym.shape[:-1])
+                try:
+                    got = np.asarray(u.get_integration_constant(Y.copy(), axis=ax), dtype=float)
+                    bad = got.shape != want.shape or not np.array_equal(got, want)
+                    gl = got.tolist()
+                except Exception as ex:
+                    bad, gl = True, '%s: %s' % (type(ex).__name__, str(ex)[:200])
+                if bad:
+                    cx.oracle(False, ('uSconst-nd', N, iv), 'get_integration_constant on an array of shape %s along axis %d is not the 1-D constant of every line' % (shp, ax),
+                              {'N': N, 'shape': list(shp), 'axis': ax, 'interval': iv, 'u_hat': Y.tolist(), 'got': gl, 'want': want.tolist()}, 'integration-constant')
+                ck.case(key=('uSconst-nd', N, shp, ax, iv), nontrivial=True)
     # independent oracle for itransform and the grid: numpy's chebval at the analytic nodes
     xe = np.cos(np.pi / N * (np.arange(N) + 0.5))
     gerr = float(np.max(np.abs(x - (fac * xe + off)))) / (abs(off) + fac)
